@@ -99,6 +99,26 @@ class C07(Prop):
             for b in storelib.BACKENDS:
                 out.append(("pre-epoch-stream", {"backend": b, "pt": rng.choice([0, 1, 2, 10]), "stream": s_,
                                                  "other": [[None, -30 * U, U, LB], [None, -2 * U, 4 * U, LA]]}))
+        # refused bucket operations of other clients between the heartbeats (re-registering an existing bucket, addressing
+        # a bucket that does not exist): none of them may undo or alter what was ingested
+        for _ in range(ctx.pick(80, 1500)):
+            m = rng.randint(2, 10)
+            t, end, s = 0, 0, []
+            for _ in range(m):
+                t += rng.choice([1000, 500_000, U, 2 * U])
+                d = max(end - t, 0) + rng.choice([0, 0, 1000, U])
+                end = t + d
+                s.append([None, T0 + t, d, rng.choice([LA, LA, LB])])
+            noise = {}
+            for i in range(1, m):
+                if rng.random() < 0.5:
+                    noise[str(i)] = [rng.choice(["create-hb", "create-other", "delete-ghost", "update-ghost", "insert-ghost"])
+                                     for _ in range(rng.randint(1, 2))]
+            for b in storelib.BACKENDS:
+                # (creating an id that exists is refused by the SQL backends; the memory backend replaces the bucket, which
+                # the bucket-lifecycle property excludes from its quantifier - no such noise there)
+                nz = noise if b != "memory" else {k: [x for x in v if not x.startswith("create-")] for k, v in noise.items()}
+                out.append(("noisy-stream", {"backend": b, "pt": rng.choice([0, 1, 2.5]), "stream": s, "other": other, "noise": nz}))
         # day-scale durations, gaps and pulsetimes (timedelta keeps days, seconds and microseconds apart)
         DAY = 86_400 * U
         for _ in range(ctx.pick(60, 1500)):
@@ -133,7 +153,24 @@ class C07(Prop):
             other_before = storelib.dump(store)["other"]
             bucket = ds["hb"]
             steps = []
-            for hb in case["stream"]:
+            noise = case.get("noise") or {}
+            for n_hb, hb in enumerate(case["stream"]):
+                # between two heartbeats other clients may (re-)register their buckets or address buckets that do not
+                # exist: the store refuses, and nothing that was ingested so far may change
+                for kind in noise.get(str(n_hb), []):
+                    try:
+                        if kind == "create-hb":
+                            ds.create_bucket("hb", "t", "c", "h", created=storelib.us_to_dt(T0))
+                        elif kind == "create-other":
+                            ds.create_bucket("other", "t", "c", "h", created=storelib.us_to_dt(T0))
+                        elif kind == "delete-ghost":
+                            ds.delete_bucket("ghost")
+                        elif kind == "update-ghost":
+                            ds.update_bucket("ghost", name="x")
+                        elif kind == "insert-ghost":
+                            ds.storage_strategy.insert_one("ghost", mk_event([None, T0, 0, LA]))
+                    except Exception:
+                        pass
                 heartbeat = mk_event(hb)
                 last = bucket.get(limit=1)
                 merged = heartbeat_merge(last[0], heartbeat, case["pt"]) if last else None
